@@ -155,11 +155,22 @@ def history_case(ctx, case):
     plan = case.get('plan', 'whole')
     if isinstance(plan, tuple):
         plan = list(plan)
-    world = vnet.World(servers=[srv], plan=plan)
+    scripts = [srv]
+    allowed = {version}
+    if case.get('negotiate'):
+        # reach play the ordinary way: several allowed versions, so a status
+        # query comes first and the status thread hands over to the login
+        import json as _json
+        allowed = {version, 47 if version != 47 else 340}
+        scripts.insert(0, servers.Server({
+            'version': version, 'status': {'reply': _json.dumps(
+                {'version': {'name': 'x', 'protocol': version},
+                 'description': 'x'})}}))
+        ctx.label('negotiated_entry')
+    world = vnet.World(servers=scripts, plan=plan)
     seen = []
     with vnet.installed(world):
-        conn, o = servers.make_connection(world,
-                                          allowed_versions={version})
+        conn, o = servers.make_connection(world, allowed_versions=allowed)
         from minecraft.networking.packets import Packet
 
         def early(p):
@@ -217,7 +228,7 @@ def history_case(ctx, case):
                      repr(excs[0]), 'no error')
         if o.exits != 1:
             ctx.fail('history', 'K4-exit-callback', case, o.exits, 1)
-        link = world.links[0]
+        link = world.links[-1]
         if not link.closed_by_client():
             ctx.fail('history', 'K4-link-left-open', case)
         else:
@@ -618,6 +629,7 @@ def case_strategy(versions, maxlen):
             'end': st.sampled_from(['disconnect', 'disconnect',
                                     'disconnect', 'eof']),
             'end_msg': st.sampled_from(END_MSGS),
+            'negotiate': st.sampled_from([False, False, True]),
             'plan': st.one_of(st.just('whole'), st.just('one'),
                               st.lists(st.integers(1, 300), min_size=1,
                                        max_size=6))})
@@ -647,6 +659,7 @@ def t_versions(ctx, versions):
             for delivery in ('all', 'reactive'):
                 case = {'version': v, 'compress': comp, 'history': hist,
                         'delivery': delivery, 'burst': 5,
+                        'negotiate': bool(k % 2),
                         'end': 'disconnect', 'plan': 'whole',
                         'end_msg': END_MSGS[(k + v) % len(END_MSGS)]}
                 k += 1
